@@ -26,7 +26,7 @@ Proof. repeat split. Qed.
 
 (* ---- the tie to the code: src/polyseed.c as TRANSLATED on this run (Gen/CApi.v) ---- *)
 From Coq Require Import String.
-From PS Require Import Base GFDefs PackDefs StoreDefs MiscDefs StrDefs LangDefs ApiDefs GFProofs PackProofs StoreProofs CTieBase CTieLang CTiePhrase CTieSplit CTieApi CTieDecode.
+From PS Require Import Base GFDefs PackDefs StoreDefs MiscDefs StrDefs LangDefs ApiDefs GFProofs PackProofs StoreProofs CTieBase CTieLang CTiePhrase CTiePhraseEv CTieSplit CTieApi CTieDecode CTieEncode.
 From PS.Gen Require Import Consts PrivConsts Langs.
 From PS.Gen Require CFuns.
 From PS.Gen Require CApi.
@@ -56,7 +56,7 @@ Theorem C16_code_tie_api_decode :
             CApi.polyseed_decode fuel sgn D ext (alloc_ptr st ok) CFuns.polyseed_mul2_table
               (Z.of_N (st_reserved st)) (zs str) (Z.of_N coin) lo lo0 gb gf gs gc so0 =
             Some (cevs, lo', b, f, s, c, so, status) /\
-            evs_of (st_deps st) cevs = no_idx evs /\
+            evs_of (st_deps st) cevs = evs /\
             (exists li : nat,
                out0 =
                OutStatus (Z.to_N status) (if (status =? 0)%Z then Some (st_next st) else None)
@@ -97,3 +97,42 @@ Theorem C16_code_tie_api_crypt :
             out0 = OutUnit /\ st_heap st' = heap_set (st_heap st) h d2 /\ st_next st' = st_next st.
 Proof. exact @tie_crypt. Qed.
 Print Assumptions C16_code_tie_api_crypt.
+
+(* polyseed_phrase_decode translated with its events: exactly one wipe of idx on every return, the MULT_LANG one included; otherwise it is the pure translation tied in C09 *)
+Theorem C16_code_tie_idx :
+  forall (fuel : nat) (ext : Z -> list Z -> Z) (ph : list (list Z)) (io : list Z) (lo lo0 : Z),
+         CApi.polyseed_phrase_decode fuel ext ph io lo lo0 =
+         match CFuns.polyseed_phrase_decode fuel ext ph io lo lo0 with
+         | Some (io', lo', r) => Some ([WIPE_IDX], io', lo', r)
+         | None => None
+         end.
+Proof. exact @tie_phrase_decode_ev. Qed.
+Print Assumptions C16_code_tie_idx.
+
+(* polyseed_encode as translated: poly and str_tmp are wiped *)
+Theorem C16_code_tie_api_encode :
+  forall (sgn : bool) (st : state) (fuel li : nat) (L : lang),
+         nth_error langs li = Some L ->
+         (forall j : nat, (Datatypes.length (nth j (l_words L) []) + 1 <= fuel)%nat) ->
+         (Datatypes.length (l_separator L) + 1 <= fuel)%nat ->
+         (forall x : bytes, snd (dp_nfc (st_deps st) x) < 2 ^ 64) ->
+         forall (h : N) (d : data) (coin : N) (out0 : list Z),
+         heap_get (st_heap st) h = Some d ->
+         Canon d ->
+         d_checksum d < 2048 ->
+         coin < 2048 ->
+         (1 <= Datatypes.length out0)%nat ->
+         match step sgn langs st (OpEncode h li coin) with
+         | (st', OutStr o nn, evs) =>
+             exists (cevs : list CApi.cev) (rest : list Z),
+               CApi.polyseed_encode fuel sgn (znfc (st_deps st))
+                 (fun _ i : Z => zs (nth (Z.to_nat i) (l_words L) [])) (fun _ : Z => zs (l_separator L))
+                 (fun _ : Z => if l_compose L then 1%Z else 0%Z) (Z.of_N (d_birthday d))
+                 (Z.of_N (d_features d)) (map Z.of_N (d_secret d)) (Z.of_N (d_checksum d)) 
+                 (Z.of_nat li) (Z.of_N coin) out0 = Some (cevs, zs o ++ 0%Z :: rest, Z.of_N nn) /\
+               evs_of (st_deps st) cevs = evs /\ st' = st
+         | (st', OutFault, _) | (st', OutUnit, _) | (st', OutNum _, _) | (st', OutStatus _ _ _, _) |
+           (st', OutBytes _, _) => True
+         end.
+Proof. exact @tie_encode. Qed.
+Print Assumptions C16_code_tie_api_encode.
